@@ -197,6 +197,9 @@ def _run_history(fb, x, z, ops, M, N, buf=None):
             y = fb.channelize(chunk, cache=True)
         elif op[0] == 'n':
             y = fb.channelize(z, cache=False)
+        elif op[0] == 'e':
+            fb.estimate_channelized_stds(factor=2 * M, seed=1)      # the library's own mid-stream cache=False user
+            y = None
         else:
             fb._reset_cache()
             y = None
@@ -216,6 +219,8 @@ def _expect(ops, M):
             fresh = False
         elif op[0] == 'n':
             exp.append(('z',))
+        elif op[0] == 'e':
+            exp.append(None)
         else:
             exp.append(None)
             fresh = True
@@ -325,7 +330,7 @@ def case_stream(c):
                 ok &= cmp_.same(y, Z0, Zref, tolz, 'nocache_reads_cache', '%s, the cache=False call itself' % label)
                 sig.append('n')
             else:
-                sig.append('r')
+                sig.append(op[0])
             skeys.add(engine.sha([cfgkey, dig, pos, sig[-1] == 'r']))
         outcomes.add('%d|%s' % (M, ','.join(sig)))
         return ok
@@ -351,6 +356,8 @@ def case_stream(c):
         for i in range(len(base) + 1):
             check_history(base[:i] + [('n',)] + base[i:], 'nocache_disturbs_cache',
                           'cache=False call on foreign data inserted at position %d of composition %s' % (i, comp))
+            check_history(base[:i] + [('e',)] + base[i:], 'stds_estimate_disturbs_cache',
+                          'estimate_channelized_stds() inserted at position %d of composition %s' % (i, comp))
             check_history(base[:i] + [('r',)] + base[i:], 'reset_stream',
                           '_reset_cache() inserted at position %d of composition %s' % (i, comp))
     res['state_keys'] = sorted(skeys)
@@ -587,7 +594,7 @@ def run(ctx):
     return ctx.finish(
         rule='every (num_taps, num_branches, window) of the box x input kind x stream length c: one-shot call vs the '
              'long-double FIR+DFT definition, then ALL 2^(c-1) compositions of the stream into chunks on a fresh '
-             'object, each also with a cache=False call / a _reset_cache() inserted at every position; two objects '
+             'object, each also with a cache=False call / estimate_channelized_stds() / _reset_cache() inserted at every position, and refed through one reused caller buffer; two objects '
              'through ALL interleavings of all pairs of compositions; linearity, complex split, get_pfb_voltages. '
              'A composition is non-trivial when it has >= 2 chunks and the spectra that need cached samples at a seam '
              'are not all zero (pairs: both objects stream in >= 2 chunks); distinct = distinct (configuration, '
@@ -608,5 +615,5 @@ def run(ctx):
                                    'impulse_positions': ('all M*P for c<=%d, else 3' % ALLPOS_C) if thorough else 3,
                                    'long_streams': 'c>=%d only for the quick box of (M,P,window)' % LONG_C,
                                    'pair_stream_windows': cpairs, 'pair_mps': len(mps)},
-                        'alphabet': ['channelize(chunk, cache=True)', 'channelize(chunk via reused buffer, cache=True)', 'channelize(foreign, cache=False)',
+                        'alphabet': ['channelize(chunk, cache=True)', 'channelize(chunk via reused buffer, cache=True)', 'channelize(foreign, cache=False)', 'estimate_channelized_stds()',
                                      '_reset_cache()', 'construct second object']})
